@@ -25,6 +25,7 @@ type Event struct {
 	Wild     bool
 	Dyn      bool
 	ID       int
+	LoopOrd  int             // loop-summary events: the ordinal of the loop (as in `loop N ...`)
 	Root     bool            // a loop of the function under verification (not of an inlined callee)
 	HeapPost map[string]Term // opaque calls: the heap right after the callee returned (for after(event, e))
 	Heap     map[string]Term // lock / recv events: the heap right after the event; opaque calls: the heap the callee saw (for at(event, e))
